@@ -700,6 +700,12 @@ func (c *moduleConfig) clone() *moduleConfig {
 	for key, value := range c.environKeys {
 		ret.environKeys[key] = value
 	}
+	// WithEnv appends to environ and overwrites its elements, so the clone
+	// needs its own backing array or it would modify its parent and siblings.
+	if c.environ != nil {
+		ret.environ = make([][]byte, len(c.environ))
+		copy(ret.environ, c.environ)
+	}
 	return &ret
 }
 
